@@ -251,8 +251,17 @@ impl HalfConnection {
     pub fn flush(&mut self, sink: &mut impl FrameSink) {
         #[cfg(uflow_verif)]
         crate::verif::trace::set_current(self.verif_id);
+        // Frames are stamped with the time at which they are sent, not with the time of the
+        // previous step(): Client::step() and Server::step() flush before they step their
+        // connections, so after a pause in the application's calls longer than one RTO the frames
+        // sent first would otherwise carry a send time from before the pause, be forgotten as
+        // expired by the very same step() and count as lost although they arrive and are
+        // acknowledged.
+        let now_ms = (time::Instant::now() - self.time_base).as_millis() as u64;
+        self.now_ms = now_ms;
+
         // Send as many frames as possible
-        self.emit_frames(self.now_ms, self.rtt_ms, self.rto_ms, self.flush_id, sink);
+        self.emit_frames(now_ms, self.rtt_ms, self.rto_ms, self.flush_id, sink);
     }
 
     fn fill_flush_alloc(&mut self, now: time::Instant) {
